@@ -97,14 +97,47 @@ def applyMods (ff : FF) : List String → C04.Block → Except RefErr C04.Block
         | none => .error (.doesNotFit n)
         | some b' => applyMods ff rest b'
 
+/-- `dict.fromkeys(modifications)` (fix d4639ea, finding F-C19-5): first occurrences, in order -/
+def dedupAux (seen : List String) : List String → List String
+  | [] => []
+  | x :: xs => if seen.contains x then dedupAux seen xs else x :: dedupAux (x :: seen) xs
+
+def dedupReq (l : List String) : List String := dedupAux [] l
+
 /-- the residue name whose block is used: the requested mutation, else the residue's own name -/
 def targetName (resname : String) : Option (List String) → Except RefErr String
   | none => .ok resname
   | some [] => .ok resname               -- not produced by AnnotateMutMod (the code would raise IndexError)
   | some (t :: rest) => if rest.all (· == t) then .ok t else .error .mutateTwice
 
-/-- `_get_reference_residue`; `renameAll` = the fix for F-C19-2 (false: the behaviour before it) -/
+/-- `_get_reference_residue`; `renameAll` = the fix for F-C19-2 (false: the behaviour before it).
+A modification requested twice is applied once (`dict.fromkeys`); the `modification` attribute
+written on the atoms is the full request list. -/
 def getReferenceGen (renameAll : Bool) (ff : FF) (resname : String) (mutation modification : Option (List String)) :
+    Except RefErr C04.Block :=
+  match targetName resname mutation with
+  | .error e => .error e
+  | .ok name =>
+    match ff.blocks.lookup name with
+    | none => .error (.unknownBlock name)
+    | some b0 =>
+      match applyMods ff (dedupReq (modification.getD [])) b0 with
+      | .error e => .error e
+      | .ok b1 =>
+        let b2 := match modification with
+          | some ms => setAll b1 "modification" (pyList ms)
+          | none => b1
+        match mutation with
+        | some (_ :: _) =>
+          let b3 := setAll b2 "mutation" (pyStr name)
+          .ok (if renameAll then setAll b3 "resname" (pyStr name) else b3)
+        | _ => .ok b2
+
+def getReference := getReferenceGen true
+
+/-- the behaviour before fix d4639ea (finding F-C19-5): every entry of the request list is patched
+in, equal ones again and again -/
+def getReferenceNoDedup (ff : FF) (resname : String) (mutation modification : Option (List String)) :
     Except RefErr C04.Block :=
   match targetName resname mutation with
   | .error e => .error e
@@ -119,12 +152,8 @@ def getReferenceGen (renameAll : Bool) (ff : FF) (resname : String) (mutation mo
           | some ms => setAll b1 "modification" (pyList ms)
           | none => b1
         match mutation with
-        | some (_ :: _) =>
-          let b3 := setAll b2 "mutation" (pyStr name)
-          .ok (if renameAll then setAll b3 "resname" (pyStr name) else b3)
+        | some (_ :: _) => .ok (setAll (setAll b2 "mutation" (pyStr name)) "resname" (pyStr name))
         | _ => .ok b2
-
-def getReference := getReferenceGen true
 
 /-- the node of the reference graph for a residue whose atoms `found` were matched by `M` -/
 def residueOf (ref : C04.Block) (found : List Int) (M : Iso.Map) (common : Attrs) : C04.Residue :=
